@@ -161,6 +161,11 @@ def page_classes():
     c['ok_no_directories'] = _p(resp(), argv=['-nd'])
     c['ok_timestamping'] = _p(resp(headers=(b'Last-Modified: Mon, 01 Jan 2024 00:00:00 GMT',)), argv=['-N'])
     c['ok_no_clobber'] = _p(resp(), argv=['-nc'])
+    c['ok_convert_links'] = _p(resp(b'<html><body><a href="http://a.test/p3">x</a><img src="i.png"></body></html>'), argv=['-k', '-K'])
+    c['ok_page_requisites_convert'] = _p(resp(b'<html><body><img src="http://a.test/p3"></body></html>'), argv=['-k', '-p'])
+    # a request with a body answered with 401 (credentials given): the retry carries the body again
+    c['au_401_post'] = _p(resp(b'', status=b'HTTP/1.1 401 Unauthorized', headers=(b'WWW-Authenticate: Basic realm="x"',)),
+                          argv=['--post-data', 'x=1', '--http-user', 'u', '--http-password', 'p'])
     # through an HTTP proxy that drops its idle connections (see errorflow_exec: ProxyServer)
     c['px_idle_close'] = _p(resp(close_hdr=False), argv=['--http-proxy', 'proxy.test:3128', '--wait', '1'])
     # the download directory (-P) does not exist yet when the first answer - a redirect, nothing to save - arrives
